@@ -11,6 +11,17 @@ NOTE_COMMON = ("Trusted: Lean 4.33 kernel; axioms per theorem subset of {propext
 
 # property -> (technique, level text, design section, extra note)
 CLAIMED = {
+    "C01": ("Lean 4 theorems on an executable model of lattice_lib.finalize_constraints / project_by_dykstra / "
+            "LatticeConstraints.__call__ + differential correspondence (finalize_constraints, LatticeConstraints, "
+            "Lattice.finalize_constraints) + oracle",
+            "Theorems (Props/C01.lean): for every rank, size vector, monotonicity set, any number of Edgeworth trusts of "
+            "either direction and any bounds, and EVERY input kernel (arbitrary Dykstra output), finalize+clip returns a "
+            "kernel monotone along every monotone axis, meeting every Edgeworth inequality and the bounds "
+            "(C01_strict_edgeworth_class), transported to the executable table model by per-step locality "
+            "(finalizeT_agree, C01_exec_edgeworth_class). Trapezoid configurations: partial - covered by the "
+            "correspondence+oracle each run; the class violating the property is proved as a counter-witness "
+            "(C01_counter_witness) and listed as known finding F-C01-a.",
+            "4/C01", "C01_full (all configurations) is NOT proved: trapezoid stages are modelled and tied, not proved. "),
     "C06": ("Lean 4 theorems on an executable model of linear_lib.project / categorical project / "
             "internal_utils partial-order projection + differential correspondence against the real constraints",
             "Theorems (Props/C06.lean): categorical pairs+bounds+fixpoint; Linear sign clip, monotonic-dominance and range-dominance stages establish every pair and keep signs (non-zero scalings), normalisation keeps all and gives unit 1-norm, feasible=>unchanged; for every weight "
